@@ -61,6 +61,37 @@ def hand_alias_write(x: fp.Real, y: fp.Real, xs: list[fp.Real], k: fp.Real):
     ys[0] = z + 1
     w = zs[0]
     return w + z''',
+    'hand_const_alias': '''@fp.fpy
+def hand_const_alias(x: fp.Real, y: fp.Real, xs: list[fp.Real], k: fp.Real):
+    with fp.MPFloatContext(5):
+        us = [1, 2, 3]
+        vs = us
+        vs[0] = 5
+        a = us[0]
+        m = [[1, 2], [3, 4]]
+        r = m[0]
+        r[1] = 7
+        b = m[0][1]
+        t = (us, 4)
+        p, q = t
+        p[2] = 8
+        c = us[2]
+    return (a + x, b, c)''',
+    'hand_const_callee_write': '''@fp.fpy
+def hand_ccw_put(zs: list[fp.Real], v: fp.Real) -> fp.Real:
+    zs[0] = v
+    return 0
+
+@fp.fpy
+def hand_const_callee_write(x: fp.Real, y: fp.Real, xs: list[fp.Real], k: fp.Real):
+    with fp.MPFloatContext(5):
+        us = [1, 2, 3]
+        t = hand_ccw_put(us, 9)
+        a = us[0] + t
+        for row in [[1, 2], [3, 4]]:
+            row[0] = k
+            a = a + row[0]
+    return a + x''',
     'hand_fold_ctx': '''@fp.fpy
 def hand_fold_ctx(x: fp.Real, y: fp.Real, xs: list[fp.Real], k: fp.Real):
     a = 1.25 * 3
@@ -129,6 +160,10 @@ def run(tier: str) -> int:
                 progs.append((n, f, srcs[n]))
         agree = []
         pairs, timeouts = equiv.make_pairs(progs, configs(tier), rng, nvec, stats, agree=agree)
+        lp, lt = equiv.library_pairs(configs(tier), rng, nvec, stats, agree, pid0=len(pairs) + 10000,
+                                     every=(4 if tier == 'quick' else 1), phase=core.seed())
+        pairs += lp
+        timeouts += lt
         mm, skips, gen, dis = equiv.run_equiv(pairs)
     finally:
         shutil.rmtree(work, ignore_errors=True)
@@ -136,7 +171,7 @@ def run(tier: str) -> int:
 
     def shape(meta, clause):
         return {'program': meta['program']} if meta['program'].startswith('hand_') else {}
-    equiv.report(rep, pairs, timeouts, mm, skips, stats, extra_key=shape)
+    equiv.report(rep, pairs, timeouts, mm, skips, stats, extra_key=shape, agree=agree)
     equiv.run_agree(rep, agree, extra_key=shape)
     rep.cov['distinct_nontrivial'] = len({(m['program'], m['xsrc']) for (_, _, m) in pairs})
     rep.cov['rule'] = ('hand-written + generated programs x {simplify under enable_* combinations, CF, CP, DCE, ordered pairs}; only '
